@@ -39,11 +39,19 @@ func execNetworkSimplex(g *graph.DGraph, params graph.Params) {
 		},
 	)
 
+	// the layers of the auxiliary graph are the x coordinates of the node centers (the length of the separation
+	// edges is a distance between centers), whereas Node.X is the left side of the node
+	leftmost := math.Inf(+1)
 	for _, l := range g.Layers {
 		for _, n := range l.Nodes {
 			l.H = max(l.H, n.H)
-			n.X = float64(p.nodes[n].Layer)
+			n.X = float64(p.nodes[n].Layer) - n.W/2
+			leftmost = min(leftmost, n.X)
 		}
+	}
+	// keep the drawing in the positive quadrant, with the leftmost node at x = 0
+	for _, n := range g.Nodes {
+		n.X -= leftmost
 	}
 }
 
